@@ -138,16 +138,27 @@ def run_check(pid, tier, seed_, n_override=None, workers=None, replay=None, no_s
     procs = []
     outs = []
     if not no_search:
+        # The work is always cut into the same W shards (the cases are a function of the seed and the shard, not of the
+        # machine), but only P of them run at a time, P shrinking when the box is busy with other work.
+        try:
+            busy = os.getloadavg()[0]
+        except OSError:
+            busy = 0.0
+        P = int(os.environ.get("VF_PARALLEL", "0")) or max(3, min(W, int(17 - busy)))
+        pending = list(range(W))
+        running = []
         for w in range(W):
-            outp = os.path.join(tmp, "w%d.json" % w)
-            outs.append(outp)
-            env = dict(os.environ)
-            env["VF_NWORKERS"] = str(W)
-            lf = open(os.path.join(tmp, "w%d.log" % w), "w")
-            procs.append(subprocess.Popen([sys.executable, "-m", "vf.worker", pid, tier, str(seed_), str(w), str(per[w]), outp],
-                                          cwd=VERIF, env=env, stdout=lf, stderr=subprocess.STDOUT))
-        for p in procs:
-            p.wait()
+            outs.append(os.path.join(tmp, "w%d.json" % w))
+        while pending or running:
+            while pending and len(running) < P:
+                w = pending.pop(0)
+                env = dict(os.environ)
+                env["VF_NWORKERS"] = str(W)
+                lf = open(os.path.join(tmp, "w%d.log" % w), "w")
+                running.append(subprocess.Popen([sys.executable, "-m", "vf.worker", pid, tier, str(seed_), str(w), str(per[w]), outs[w]],
+                                                cwd=VERIF, env=env, stdout=lf, stderr=subprocess.STDOUT))
+            time.sleep(0.2)
+            running = [p for p in running if p.poll() is None]
     agg = dict(evaluations=0, executions=0, invalid=0, labels={}, samples=[], known_hits={}, inconclusive=0, distinct=0)
     nth = set()
     failing = {}
